@@ -9,3 +9,4 @@ ASSUMED = ["tinyflux.storages.Storage." + f for f in ("can_read", "can_write", "
 STANDIN = "standins/dbdiff.py"
 TRUSTED = TRUSTED_CORE + [STORAGE_ASSUMED, QUERY_ASSUMED, "assumed lemma instances: pigeonhole (Index.update)"]
 ASSUMPTIONS = [A_ALIAS, "I/O failures of the storage are outside this property (C13)"]
+FUNCTIONS = FUNCTIONS + MEM_REFINEMENT  # MemoryStorage refines the abstract Storage contract
